@@ -156,6 +156,74 @@ def with_normalize(line, rng):
     return " ; ".join(out), keep
 
 
+REGPOS = {"join": (1, 2, 3), "meet": (1, 2, 3), "widen": (1, 2, 3), "narrow": (1, 2, 3), "widenthr": (1, 2, 3),
+          "copy": (1, 2), "q_leq": (1, 2)}
+
+
+def twin(line, rng):
+    """value semantics of copies: after some operation on register s (preferably a widening, whose
+    result carries lazily-normalised state) a copy T := s is made by ASSIGNMENT onto an existing value
+    (T is a new last register, first set to some other value), then every later operation on s is
+    also applied to T, each pair followed by q_at s ; q_at T (and q_csts): the answers must agree"""
+    ops = line.split(" ; ")
+    head = ops[0].split()
+    nregs = int(head[1]); T = nregs
+    head[1] = str(nregs + 1)
+    body = ops[1:]
+    cand = [i for i, o in enumerate(body) if o.split()[0] in ("widen", "widenthr")]
+    if not cand or rng.random() < 0.3:
+        cand = [i for i, o in enumerate(body) if not o.startswith("q_")]
+    if not cand:
+        return None
+    i0 = rng.choice(cand)
+    s_reg = body[i0].split()[1]
+    out = [" ".join(head)] + body[:i0 + 1]
+    # T holds some unrelated value first (so that the copy is an assignment, not a construction)
+    out.append("assume %d 1 C le E 1 1 0 -3" % T)
+    out.append("copy %d %s" % (T, s_reg))
+    out.append("q_at %s" % s_reg); out.append("q_at %d" % T)
+    if rng.random() < 0.6:
+        # an operation whose result depends on the closure of the value: forget one variable on both
+        v = rng.randrange(int(head[2]))
+        out.append("forget %s 1 %d" % (s_reg, v)); out.append("forget %d 1 %d" % (T, v))
+        out.append("q_at %s" % s_reg); out.append("q_at %d" % T)
+        out.append("q_csts %s" % s_reg); out.append("q_csts %d" % T)
+    for o in body[i0 + 1:]:
+        t = o.split()
+        out.append(o)
+        if t[0].startswith("q_") or t[1] != s_reg:
+            continue
+        t2 = list(t)
+        for pos in REGPOS.get(t[0], (1,)):
+            if t2[pos] == s_reg:
+                t2[pos] = str(T)
+        out.append(" ".join(t2))
+        out.append("q_at %s" % s_reg); out.append("q_at %d" % T)
+        if rng.random() < 0.5:
+            out.append("q_csts %s" % s_reg); out.append("q_csts %d" % T)
+    return " ; ".join(out)
+
+
+def twin_oracle(line, ans):
+    """consecutive  q_at s ; q_at T  /  q_csts s ; q_csts T  (T = the last register) must agree"""
+    if ans.startswith("ABORT") or ans == "MISSING" or ans.startswith("HARNESS-ERROR"):
+        return None
+    ops = line.split(" ; ")
+    T = str(int(ops[0].split()[1]) - 1)
+    answers = ans.split(" ; ")
+    body = ops[1:]
+    for i in range(len(body) - 1):
+        a, b = body[i].split(), body[i + 1].split()
+        if a[0] in ("q_at", "q_csts") and b[0] == a[0] and b[1] == T and a[1] != T and i + 1 < len(answers):
+            x, y = answers[i], answers[i + 1]
+            if a[0] == "q_csts":
+                x = ",".join(sorted(x[1:-1].split(","))); y = ",".join(sorted(y[1:-1].split(",")))
+            if x != y:
+                return ("step %d (%s) of: %s: register %s is a copy of register %s and has seen the same operations, "
+                        "but it answers %s where the original answers %s" % (i + 2, body[i + 1], line, T, a[1], answers[i + 1], answers[i]))
+    return None
+
+
 def histories(seed, prop, n, big=False, drop=(), maxvars=5, maxops=30, asc_widen=False, rel=False):
     """n histories; for a relational domain every second one is written in the octagon
     language (unit coefficients, x-y / x+y constraints, x := y + k assignments), which
